@@ -178,6 +178,8 @@ def report(prop, spec, tier, seed, results, extra, t0, common):
                 if v['status'] != 'unsat':
                     crashes.append(f"{v['name']}: precondition not satisfiable ({v['detail']})")
                 continue
+            if v['kind'] == 'note':
+                continue
             if v['kind'] == 'translate':
                 undecided.append(f"{v['name']}: {str(v['detail'])[:300]}")
                 continue
